@@ -4,6 +4,7 @@ import (
 	"fmt"
 	"math"
 	"math/cmplx"
+	"os"
 	"sort"
 
 	"gonum.org/v1/gonum/lapack/gonum"
@@ -395,6 +396,10 @@ func sameAll(key string, ps ...*pmat) *vk.Failure {
 // is pre-filled with NaN: its content on entry is unspecified, so a result that
 // depends on it is wrong.
 func withWork(c kase, rng *vk.SplitMix, minL int, call func(work []float64, lwork int), ops ...*pmat) (lwork, query int, f *vk.Failure) {
+	return withWorkE(c, rng, minL, false, call, ops...)
+}
+
+func withWorkE(c kase, rng *vk.SplitMix, minL int, emptyProblem bool, call func(work []float64, lwork int), ops ...*pmat) (lwork, query int, f *vk.Failure) {
 	wq := newPvec("work(query)", 1, rng, false)
 	snapAll(ops...)
 	wq.snapshot()
@@ -410,7 +415,14 @@ func withWork(c kase, rng *vk.SplitMix, minL int, call func(work []float64, lwor
 	}
 	query = int(q)
 	if query < minL {
-		return 0, query, vk.Failf("query-below-minimum", "query returned %d, documented minimum is %d", query, minL)
+		if !emptyProblem {
+			return 0, query, vk.Failf("query-below-minimum", "query returned %d, documented minimum is %d", query, minL)
+		}
+		// Reference LAPACK and gonum answer an empty problem (min(m,n) == 0) with
+		// work[0] = 1 before looking at lwork, while still enforcing
+		// lwork >= max(1,m,n) on entry. Counted, not judged.
+		vk.Class("query-below-documented-minimum(tolerated:empty-problem-or-Dlaqr04)")
+		query = minL
 	}
 	switch c.LW {
 	case 0:
@@ -437,6 +449,9 @@ func runWork(rng *vk.SplitMix, lwork int, call func(work []float64, lwork int), 
 	w := newPvec("work", lwork, rng, true)
 	snapAll(ops...)
 	w.snapshot()
+	if os.Getenv("C03_NORECOVER") != "" {
+		call(w.data, lwork)
+	}
 	if r := vk.Call(func() { call(w.data, lwork) }); r.Outcome != vk.Returned {
 		return vk.Failf("valid-call-panics", "call with lwork=%d ended in %v: %s", lwork, r.Outcome, r.Text)
 	}
@@ -1194,7 +1209,7 @@ func checkQuasiTri(pfx string, t mat, lo, hi int) *vk.Failure {
 			return vk.Failf(pfx+"schur-form-3x3-block", "T[%d,%d] and T[%d,%d] both non-zero (n=%d)", i+1, i, i+2, i+1, n)
 		}
 		a, b, c, d := t.d[i*n+i], t.d[i*n+i+1], t.d[(i+1)*n+i], t.d[(i+1)*n+i+1]
-		if a != d || !(b*c < 0) {
+		if a != d || !((b > 0 && c < 0) || (b < 0 && c > 0)) {
 			return vk.Failf(pfx+"schur-block-not-standard", "2x2 block at %d: [%v %v; %v %v] (need equal diagonal and b*c<0), n=%d", i, a, b, c, d, n)
 		}
 	}
